@@ -7,6 +7,7 @@
 //   <cid> PST @r L <nloc> s.. O <noff> (gcol view)* ...               per rank: own labels, views of off-process columns
 //   <cid> ROWS @r <nloc> (kon c.. koff c..)* ...                      per rank: local rows as stored (global columns)
 #include "common_par.hpp"
+#include <cmath>
 
 static void run_seq(const std::string& cid, Toks& t) {
     std::string algo = t.next(); int n = t.next_int();
@@ -37,12 +38,24 @@ static std::string rows_str(ParCSRMatrix* S) {
     return o.str();
 }
 
-static void run_par(const std::string& cid, Toks& t) {
+// entries with |value| < 1/2 are weak couplings of A: S keeps A's column maps and communicator but stores the strong entries only
+static void drop_weak(CSRMatrix* M) {
+    std::vector<int> p(M->n_rows + 1, 0), c; std::vector<double> v;
+    for (int i = 0; i < M->n_rows; i++) {
+        for (int k = M->idx1[i]; k < M->idx1[i + 1]; k++) if (fabs(M->vals[k]) >= 0.5) { c.push_back(M->idx2[k]); v.push_back(M->vals[k]); }
+        p[i + 1] = (int)c.size(); }
+    M->idx1 = p; M->idx2 = c; M->vals = v; M->nnz = (int)c.size();
+}
+static void run_par(const std::string& cid, Toks& t, bool wide) {
     std::string algo = t.next(); int tap = t.next_int();
     ParLit L; L.parse(t);
     std::vector<double> wg = t.nums(L.nr);
     if (!L.usable()) return;
-    ParCSRMatrix* S = L.csr();
+    ParCSRMatrix* S = L.csr(); ParCSRMatrix* A_wide = NULL;
+    if (wide) {       // what A->strength() hands to the splitting routines: the strength pattern on A's (wider) communicator
+        ParCSRMatrix* A = S; S = A->copy(); A_wide = A;
+        drop_weak((CSRMatrix*)S->on_proc); drop_weak((CSRMatrix*)S->off_proc); S->local_nnz = S->on_proc->nnz + S->off_proc->nnz;
+    }
     if (tap) S->init_tap_communicators();
     std::vector<double> w(S->local_num_rows > 0 ? S->local_num_rows : 1);
     for (int i = 0; i < S->local_num_rows; i++) w[i] = wg[S->partition->first_local_row + i];
@@ -60,13 +73,15 @@ static void run_par(const std::string& cid, Toks& t) {
     for (int i = 0; i < S->off_proc_num_cols; i++)
         o << " " << S->off_proc_column_map[i] << " " << (i < (int)off_states.size() ? off_states[i] : -99);
     emit_all(cid, "PST", o.str());
-    delete S;
+    delete S; if (A_wide) delete A_wide;      // (a leaked matrix keeps its node communicators: tens of thousands of cases exhaust MPI's ids)
+    { std::ostringstream q; q << drain_stray(); emit_all(cid, "STRAY", q.str()); }     // messages sent but never received
 }
 
 static void run_case(const std::string& cid, Toks& t) {
     std::string kind = t.next();
     if (kind == "seq") run_seq(cid, t);
-    else if (kind == "par") run_par(cid, t);
+    else if (kind == "par") run_par(cid, t, false);
+    else if (kind == "parw") run_par(cid, t, true);
     else throw std::runtime_error("kind " + kind);
 }
 
